@@ -31,6 +31,30 @@ def run_check(prop):
 def main():
     assert clean_tree(), "/repo working tree must be clean"
     results = []
+    if len(sys.argv) > 1 and sys.argv[1] == "--benign":
+        from mutants import BENIGN
+        bad = []
+        for name, props, path, old, _, new in BENIGN:
+            src = open("/repo/" + path).read()
+            if src.count(old) < 1:
+                print(f"{name}: anchor text found {src.count(old)} times in {path} - skipped"); continue
+            open("/repo/" + path, "w").write(src.replace(old, new))
+            try:
+                green, out = suite_green()
+                row = {}
+                for prop in props:
+                    rc, viol, cls = run_check(prop)
+                    row[prop] = {"exit": rc, "violation": viol, "classes": cls}
+                    if rc != 0 or viol:
+                        bad.append((name, prop, rc, cls))
+            finally:
+                sh("git -C /repo checkout -- .")
+            results.append({"name": name, "suite_green": green, "checks": row})
+            print(f"{name:30s} suite_green={green} " + " ".join(f"{p}:{'ALARM' if v['violation'] or v['exit'] else 'quiet'}" for p, v in row.items()), flush=True)
+        sh("rm -f /verif/replays/*.json")
+        json.dump(results, open("/verif/selftest/results-benign.json", "w"), indent=1)
+        print(f"{len(results)} benign changes; alarms: {bad}")
+        return
     if len(sys.argv) > 1 and sys.argv[1] == "--seeded":
         items = []
         for d in sorted(glob.glob("/verif/seeded/*/")):
